@@ -147,7 +147,15 @@ def correspondence(ctx):
     for v in ctx.violations[nb:]:
         v["replay"] = dict(v.get("replay") or {}, ent="dstream")
     ev += dsr.get("evaluations", 0)
-    return dict(evaluations=ev, dstream_model_tie=dsr, distinct_nontrivial=len({ln[:200] + str(len(ln)) for ln in lines}),
+    # deterministic model of ZSTD_compressStream2 / compressStream_generic (Model/CStream.lean): per call consumed / produced / return value,
+    # chunk log (source size, compressed size per ZSTD_compressContinue / End call) and buffer geometry against the real code
+    import ent_cstream
+    nb = len(ctx.violations)
+    csr = ent_cstream.run(ctx)
+    for v in ctx.violations[nb:]:
+        v["replay"] = dict(v.get("replay") or {}, ent="cstream")
+    ev += csr.get("evaluations", 0)
+    return dict(evaluations=ev, dstream_model_tie=dsr, cstream_model_tie=csr, distinct_nontrivial=len({ln[:200] + str(len(ln)) for ln in lines}),
                 rule="compression: inputs x parameter vectors x call histories (chunk lists with 1-byte and block-straddling sizes, output capacities down to 1 byte, continue/flush/end strings, stable-in with several small "
                      "continue calls, stable-out, dictionaries); decompression: compositions of the emitted frames and skippable frames under random input/output segmentations (0- and 1-byte calls), each observed call checked "
                      "against the spec LTS (Stream.dlegalNum) and the whole output against single-call decoding; distinct = distinct call lines",
@@ -158,6 +166,9 @@ def replay(ctx, data):
     if data.get("ent") == "dstream":
         import ent_dstream
         return ent_dstream.replay(ctx, data)
+    if data.get("ent") == "cstream":
+        import ent_cstream
+        return ent_cstream.replay(ctx, data)
     exe = frames.harness()
     rc, out, err = frames.run_lines(exe, [data["op"]])
     return dict(violates=True, note="re-executed; compare with the description", result=[o[:300] for o in out])
